@@ -67,3 +67,9 @@ for be in BACKS:
                        throwers=['do_process_event'], try_=True))],
         'HandledEnum do_process_helper_unit(fsm_t* self, type_t EventT, event_t evt, _Bool no_exception_thrown, _Bool is_direct_call)', 'evloop_back.spec.h',
         compose='if (no_exception_thrown) {@0} else {@1}', fire={'TRY': (1, 1)}, replay=['exc']))
+
+    UNITS.append(Unit(be + '.is_event_handling_blocked_helper', ['C11', 'C13'], be,
+        [Part(SM, [], 'bool is_event_handling_blocked_helper ( true_ const & )'), Part(SM, [], 'bool is_event_handling_blocked_helper ( false_ const & )')],
+        '_Bool blocked_helper_unit(fsm_t* self, type_t EventT, _Bool has_blocking)', 'evloop_back.spec.h',
+        xform=back_xform(['is_flag_active', 'EndInterruptFlag'], refparams=(), methods=['is_flag_active']),
+        compose='if (has_blocking) {@0} else {@1}', replay=['block']))
